@@ -143,7 +143,7 @@ def den_term(ctx, eq):
                 facts.append(c0 + (c1 - c0) == c1)
         # ghost heap snapshots in scope (H = heap_now()): the frame lemma between each snapshot and the current state
         for gname, gv in ctx.st.ghost.items():
-            if getattr(gv, 'ty', None) is not None and gv.ty.kind == 'heap' and gv.meta is not ctx.st:
+            if getattr(gv, 'ty', None) is not None and gv.ty.kind == 'heap' and gv.meta is not ctx.st and not gname.startswith('_'):
                 try:
                     Ch, Th, Eh, nh = arrays_of(gv.meta, eq)
                 except Exception:
